@@ -3,6 +3,7 @@
 -/
 import Pk.Proofs.MgrTerminationConv
 import Pk.Proofs.MgrTagsStep
+import Pk.Proofs.MgrTruthEdit
 namespace Pk.Proofs.MgrTermination
 open Pk.Mgr Pk.Proofs.MgrTags
 open Pk.Proofs.MgrConv (cOf qOf activeOf sc2 clr1 add1 foundOf)
@@ -231,8 +232,12 @@ theorem cdMark_noop (s : St) (p : String × IdSet) (h : ¬ (p.1 ∈ s.convs ∧ 
       | nil => rfl
       | cons a l => exact absurd ⟨hc', by rw [hp]; simp⟩ h
     rw [hp]
-    have hF : ∀ t, cdF [] t = t := by intro t; unfold cdF; split <;> rfl
-    have hm : s.tags.map (fun q => (q.1, cdF [] q.2)) = s.tags := by
+    have hF : ∀ t, cdF s.all [] t = t := by
+      intro t; unfold cdF
+      split
+      · rfl
+      · split <;> rfl
+    have hm : s.tags.map (fun q => (q.1, cdF s.all [] q.2)) = s.tags := by
       simp only [hF]; exact List.map_id' _
     rw [hm]
     rfl
@@ -274,14 +279,15 @@ theorem jb_inherit (s : St) (hub : ∀ n t, sget s.tags n = some t → ∀ id, i
       | some ot =>
         rw [hg] at hb'
         dsimp only at hb'
-        obtain ⟨t', ht', hrel⟩ := (inherit_keep s n).1 ot hg
+        obtain ⟨t', ht', hrel⟩ := (MgrTruth.inherit_keepR s n).1 ot hg
         rw [ht']
         dsimp only
         simp only [Bool.not_eq_false', Bool.and_eq_true, beq_iff_eq, Bool.not_eq_true',
           List.isEmpty_eq_false_iff] at hb' ⊢
-        refine ⟨hrel.2.1.trans hb'.1, ?_⟩
+        obtain ⟨_, r2, _, _, _, _, r7, r8⟩ := hrel
+        refine ⟨⟨r2.trans hb'.1.1, r7.trans hb'.1.2⟩, ?_⟩
         obtain ⟨x, hx⟩ := exists_mem_of_ne_nil hb'.2
-        exact ne_nil_of_mem (hrel.2.2 x hx (hub n ot hg x hx))
+        exact ne_nil_of_mem (r8 x hx (hub n ot hg x hx))
 
 theorem sur_inherit (s : St) (hs : Sorted s.tags) : sur (inherit s) = sur s := by
   have hl := length_of_keys (inherit_sweep s hs).1
@@ -426,7 +432,7 @@ theorem tdPublish_keys (s : St) (hs : Sorted s.tags) (name : String) (snap : Tag
 theorem tdPublish_empty (s : St) (name : String) (snap : Tag) (res : IdSet) (hm : masksEmpty s = true) :
     tdPublish s name snap res =
       match sget s.tags name with
-      | some ot => if ot.defn == snap.defn then
+      | some ot => if ot.defn == snap.defn && ot.gen == snap.gen then  -- CHANGED (gen)
           setTag (qConv s ot.convs (tdTag snap ot res).mat) name (tdTag snap ot res) else s
       | none => s := by
   unfold tdPublish
@@ -434,7 +440,7 @@ theorem tdPublish_empty (s : St) (name : String) (snap : Tag) (res : IdSet) (hm 
   | none => rfl
   | some ot =>
     dsimp only
-    by_cases hd : (ot.defn == snap.defn) = true
+    by_cases hd : (ot.defn == snap.defn && ot.gen == snap.gen) = true
     · rw [if_pos hd, if_pos hd]
       unfold tdInval
       have hme : masksEmpty (setTag (qConv s (tdTag snap ot res).convs (tdTag snap ot res).mat) name (tdTag snap ot res)) = true := by
@@ -552,9 +558,10 @@ theorem tagDone_lt (s : St) (st : Started) (name : String) (result : List Nat) (
       have hg' : sget ({ s with jTag := none } : St).tags name = some ot := hg
       rw [hg'] at hPeq
       dsimp only at hPeq
-      by_cases hd : (ot.defn == snap.defn) = true
+      by_cases hd : (ot.defn == snap.defn && ot.gen == snap.gen) = true
       · rw [if_pos hd] at hPeq
-        have hd' : ot.defn = snap.defn := by simpa using hd
+        have hdg : ot.defn = snap.defn ∧ ot.gen = snap.gen := by simpa using hd
+        have hd' : ot.defn = snap.defn := hdg.1
         have hf := hfacts ot hg hd'
         have hPt : P.tags = sins name (tdTag snap ot (ofList result)) s.tags := by
           rw [hPeq]
@@ -619,8 +626,11 @@ theorem tagDone_lt (s : St) (st : Started) (name : String) (result : List Nat) (
             have := htl.h1; have := htl.h2; have := htl.h3; have := htl.h4; have := h23.1; have := h23.2
             omega
       · rw [if_neg hd] at hPeq
-        have hd' : (ot.defn == snap.defn) = false := by simpa using hd
-        have hjb : jb s = 1 := by simp [jb, jobBad, hj, hg, hd']
+        have hd' : (ot.defn == snap.defn && ot.gen == snap.gen) = false := by
+          cases h : (ot.defn == snap.defn && ot.gen == snap.gen) with
+          | false => rfl
+          | true => exact absurd h hd
+        have hjb : jb s = 1 := by simp only [jb, jobBad, hj, hg, hd']; rfl
         have : X.tags = s.tags := by rw [xtags, hPeq]
         rw [this] at hm4X
         apply lex7
